@@ -1,7 +1,9 @@
-(** C19 — metric log.  Statements only; proofs in Proofs/C19Proofs.v.
-    The writer's index invariant and the torn-tail lemma hold for every history; search
-    correctness across files and after a crash is evaluated on traces (Spec/C19Spec.v), see DESIGN. *)
-From SV Require Import Model.Base Model.MetricLine Model.MetricLog Spec.C19Inv Spec.C19Search Proofs.C19Proofs Proofs.C19SearchProofs Proofs.C19GoodProofs.
+(** C19 — metric log.  Statements only; proofs in Proofs/C19*.v.
+    For every write history: index invariant, retention, the directory is well formed, and a search by time
+    returns exactly the retained items of the interval; on every well-formed directory both searches are
+    exact / a prefix not cut short; with the last file torn by a crash both searches return what the
+    completely written part prescribes plus at most one item read from the torn line. *)
+From SV Require Import Model.Base Model.MetricLine Model.MetricLog Spec.C19Inv Spec.C19Search Proofs.C19Proofs Spec.C19Crash Proofs.C19SearchProofs Proofs.C19GoodProofs Proofs.C19CrashProofs.
 Open Scope N_scope.
 
 (** whatever is written, at any timestamps, with any limits: every file in the directory is the
@@ -68,3 +70,36 @@ Proof.
   exists fs. split; [exact G|]. split; [exact E|].
   intros b e res. rewrite E. apply c19_find_by_time_exact. exact G.
 Qed.
+
+(** the search from a time with a line limit, on every well-formed directory: a prefix, in write order, of
+    what lies behind the first indexed second at or after the begin second; never cut short (everything, or
+    at least [max] lines); what exceeds the limit belongs to the second of the last line within it *)
+Theorem C19_find_max_lines_prefix : forall fs begin_ms max,
+  good_dir fs ->
+  match from_first_entry fs (begin_ms / 1000) with
+  | None => find_max_lines (map conc fs) begin_ms max = []
+  | Some items => max_ok items max (find_max_lines (map conc fs) begin_ms max)
+  end.
+Proof. exact c19_find_max_lines_prefix. Qed.
+
+(** a crash tore the last file (log cut inside a line, index cut inside an entry, at any bytes): the search by
+    time returns exactly what the completely written part prescribes, plus at most one item read from the torn line *)
+Theorem C19_search_by_time_after_crash : forall fs day no t begin_ms end_ms res,
+  torn_ok t -> Forall name_ok (t_items t) ->
+  good_dir (fs ++ [cut_file day no t]) ->
+  exists extra, (length extra <= 1)%nat /\
+    find_by_time (map conc fs ++ [torn_file day no t]) begin_ms end_ms res =
+    expected_by_time (fs ++ [cut_file day no t]) (begin_ms / 1000) (end_ms / 1000) res ++ extra.
+Proof. exact c19_search_by_time_after_crash. Qed.
+
+(** ... and so does the search with a line limit *)
+Theorem C19_search_max_lines_after_crash : forall fs day no t begin_ms max,
+  torn_ok t -> Forall name_ok (t_items t) ->
+  good_dir (fs ++ [cut_file day no t]) ->
+  exists extra, (length extra <= 1)%nat /\
+    match from_first_entry (fs ++ [cut_file day no t]) (begin_ms / 1000) with
+    | None => find_max_lines (map conc fs ++ [torn_file day no t]) begin_ms max = extra
+    | Some items => exists out, max_ok items max out /\
+                    find_max_lines (map conc fs ++ [torn_file day no t]) begin_ms max = out ++ extra
+    end.
+Proof. exact c19_search_max_lines_after_crash. Qed.
